@@ -10,7 +10,7 @@ EXPECT = {  # subject prefix -> checks expected to fire when the fix is undone
     'replaying a graph passes the keyword': ['C05'], 'sum(axis=...) of a traced': ['C03'], 'pullback of reshape': ['C03'],
     'pullback of outer': ['C03'], 'pullback of dot(matrix, vector)': ['C03'], 'pullback of tile': ['C03'], 'pullback of constant * UTPM': ['C03'],
     're-evaluating a traced in-place write': ['C03', 'C04'], 'a reverse sweep re-applies': ['C06'], 'pullback of ifft': ['C03'],
-    'eigenvector pullback of eigh': ['C03'], 'pullback of tan no longer': ['C06', 'C14'], 'x *= y when y is x': ['C14'], 'resets the eigenvector buffer': ['C08'], 'promote every integer seed': ['C09'], 'CGraph.gradient evaluates integer': ['C04'], 'UTPM.vecsym allocates': ['C17'], 'minimum/maximum of traced values': ['C10'], 'pullback of prod accumulates': ['C03'], 'expit of large arguments': ['C01'], 'constant array c is a view of x': ['C14'], 'constant b of mixed real/complex dtype': ['C07'], 'zero-dimensional integer array as exponent': ['C01'], 'forwards the rank threshold': ['C08'], 'in-place write with a constant array': ['C03'], 'pullback of symvec with UPLO': ['C03'], 'right hand side is broadcast': ['C03', 'C04'], 'promotes a NumPy scalar base': ['C02'], 'integer-typed matrices compute in floating point': ['C07'], 'keep the imaginary part of complex adjoints': ['C03'], 'imag() of a traced complex value': ['C03'], 'accepts a complex y for a real x': ['C03'], 'integer-typed points are computed in floating point': ['C16'], 'allocate their result with the length n': ['C13'], 'a view of x': ['C13'], 'x ** 2.0 is the polynomial': ['C02'], 'conversion helpers keep complex': ['C17'],
+    'eigenvector pullback of eigh': ['C03'], 'pullback of tan no longer': ['C06', 'C14'], 'x *= y when y is x': ['C14'], 'resets the eigenvector buffer': ['C08'], 'promote every integer seed': ['C09'], 'CGraph.gradient evaluates integer': ['C04'], 'UTPM.vecsym allocates': ['C17'], 'minimum/maximum of traced values': ['C10'], 'pullback of prod accumulates': ['C03'], 'expit of large arguments': ['C01'], 'constant array c is a view of x': ['C14'], 'constant b of mixed real/complex dtype': ['C07'], 'zero-dimensional integer array as exponent': ['C01'], 'forwards the rank threshold': ['C08'], 'in-place write with a constant array': ['C03'], 'pullback of symvec with UPLO': ['C03'], 'right hand side is broadcast': ['C03', 'C04'], 'promotes a NumPy scalar base': ['C02'], 'integer-typed matrices compute in floating point': ['C07'], 'keep the imaginary part of complex adjoints': ['C03'], 'imag() of a traced complex value': ['C03'], 'accepts a complex y for a real x': ['C03'], 'integer-typed points are computed in floating point': ['C16'], 'allocate their result with the length n': ['C13'], 'a view of x': ['C13'], 'x ** 2.0 is the polynomial': ['C02'], 'conversion helpers keep complex': ['C17'], 'zeros and ones accept a dtype given as a string': ['C10'], 'select instead of blending': ['C10'], 'extract_jac_vec for scalar': ['C09'],
 }
 
 
